@@ -225,6 +225,107 @@ class UnorderedInventory:
                     len(sites), sum(1 for s in sites if s['order_insensitive_use'])), "sites": sites[:80]}
 
 
-TARGETS = [VariableFilesOrder(), VariableFilesOrderParametrize(), LayerFold(), HashSerialisation(), HashEnvironment()]
+def _reachable_ids(root, seen=None):
+    seen = set() if seen is None else seen
+    if id(root) in seen:
+        return seen
+    if isinstance(root, (dict, list, set, tuple)):
+        seen.add(id(root))
+        for x in (list(root.values()) + list(root.keys()) if isinstance(root, dict) else list(root)):
+            _reachable_ids(x, seen)
+    return seen
+
+
+def _snapshot(v):
+    import copy
+    return copy.deepcopy(v)
+
+
+PARSED = {'user/a.yaml': {'global': {'x': 'a-global', 'only-a': '1'}, 'stages': {0: {'x': 'a-stage0'}}},
+          'user/b.yaml': {'global': {'x': 'b-global'}, 'stages': {0: {'y': 'b-stage0'}, 1: {'z': 'b-stage1'}}}}
+
+
+class ReadUserVariables(Target):
+    """'the same package with the same options loads the same in every process' also means: independent of what the
+    process loaded BEFORE.  layer_many_variable_files merges later files INTO the object parsed from the first one
+    (FlowIR.override_object works in place and shares novel keys), so the parsed objects must not outlive the call:
+    read_user_variables hands out a private object, or the layering leaves the parsed objects alone -- the property needs
+    one of the two (alternative mechanisms)."""
+    prop = 'C15'
+    name = 'FlowIRExperimentConfiguration.read_user_variables'
+    file = CF
+    qualname = 'FlowIRExperimentConfiguration.read_user_variables'
+    inline_class = {'cls': (CF, 'FlowIRExperimentConfiguration')}
+    pure = ('os.path.splitext', 'os.path.abspath')
+    compare_return = False
+    alternatives = {'callers-get-a-private-object': 'parsed-variable-files-do-not-outlive-the-load'}
+    trusted = ["the YAML / DOSINI readers return a newly built dictionary per call", "os.stat (only if the code asks)"]
+
+    def alt_case(self, c, st):
+        return 'variable-files'
+
+    def setup(self, c):
+        path = c.one_of('file', ['user/a.yaml', 'user/b.conf'])
+        validate = c.one_of('validate', [True, False])
+        cls = Obj('FlowIRExperimentConfiguration-class',
+                  _validate_user_variables=Extern('_validate_user_variables', lambda c, *a, **k: []))
+        return State(args=[cls, path, [], validate], cls=cls, path=path)
+
+    def real_function(self):
+        import experiment.model.conf as conf_mod
+        return conf_mod.FlowIRExperimentConfiguration.read_user_variables.__func__
+
+    def externs(self, c, st):
+        fetch = lambda c, path, errs: _snapshot(PARSED['user/a.yaml'])
+        return {'DOSINIExperimentConfiguration._fetch_user_variables': Extern('DOSINI._fetch_user_variables', fetch),
+                'FlowIRExperimentConfiguration._fetch_user_variables': Extern('FlowIR._fetch_user_variables', fetch),
+                'os.stat': Extern('os.stat', lambda c, p: Obj('stat', st_mtime_ns=1, st_size=10, st_mtime=1.0))}
+
+    def ensures(self, c, st, out):
+        if out.kind == 'raise':
+            return [('no-exception', False)]
+        kept = set()
+        for v in object.__getattribute__(st.cls, '_fields').values():
+            _reachable_ids(v, kept)
+        return [('returns-what-the-file-holds', out.value == PARSED['user/a.yaml']),
+                ('callers-get-a-private-object', not (_reachable_ids(out.value) & kept))]
+
+
+class LayerFoldFrame(Target):
+    """the other half: does layering modify the objects it got from read_user_variables?  (REAL FlowIR.override_object,
+    executed natively on concrete dictionaries)"""
+    prop = 'C15'
+    name = 'FlowIRExperimentConfiguration.layer_many_variable_files[frame]'
+    file = CF
+    qualname = 'FlowIRExperimentConfiguration.layer_many_variable_files'
+    pure = ('experiment.model.frontends.flowir.FlowIR.override_object',)
+    compare_return = False
+    alternatives = {'parsed-files-are-left-alone': 'parsed-variable-files-do-not-outlive-the-load'}
+    trusted = ["FlowIR.override_object: the real function, run natively on concrete dictionaries"]
+
+    def alt_case(self, c, st):
+        return 'variable-files'
+
+    def setup(self, c):
+        order = c.one_of('order', [['user/a.yaml', 'user/b.yaml'], ['user/b.yaml', 'user/a.yaml']])
+        handed_out = {}
+
+        def read(c, path, errs, flag):
+            handed_out[path] = _snapshot(PARSED[path])
+            return handed_out[path]
+        cls = Obj('cls', read_user_variables=Extern('read_user_variables', read))
+        return State(args=[cls, list(order)], order=order, handed_out=handed_out)
+
+    def ensures(self, c, st, out):
+        if out.kind == 'raise':
+            return [('no-exception', False)]
+        last, first = st.order[-1], st.order[0]
+        want_x = PARSED[last]['global']['x']
+        return [('the-last-file-wins', out.value['global']['x'] == want_x),
+                ('parsed-files-are-left-alone', all(st.handed_out[p] == PARSED[p] for p in st.order))]
+
+
+TARGETS = [VariableFilesOrder(), VariableFilesOrderParametrize(), LayerFold(), HashSerialisation(), HashEnvironment(),
+           ReadUserVariables(), LayerFoldFrame()]
 LEMMAS = []
 BOUNDED = [UnorderedInventory()]
